@@ -11,6 +11,8 @@ Import ListNotations.
 From Base Require Import PyStr.
 From Model Require Import Wrap.
 From Proofs Require Import PyStrFacts WrapProofs CanonProofs IdemProofs.
+From Model Require Ast Transforms.
+From Proofs Require CleanupIdem.
 Local Open Scope Z_scope.
 
 Theorem C02_reread_gives_the_words : forall esc text width c0 c1,
@@ -49,3 +51,18 @@ Print Assumptions C02_escape_idempotent.
 Example C02_markdown_example :
   wrap_paragraph_lines escape_word split_ws [97; 97; 97; 32; 45; 32; 98]%N 4 0 0 true true true = [[97; 97; 97]; [92; 45; 32; 98]]%N.
 Proof. vm_compute. reflexivity. Qed.
+
+(* the cleanup stage reaches its fixed point in one application, for every tree (after fix b925259; before it
+   a heading that was bold around italics around bold needed two): the second formatting pass finds nothing to do *)
+Theorem C02_cleanup_idempotent : forall bs,
+  Model.Transforms.doc_cleanups (Model.Transforms.doc_cleanups bs) = Model.Transforms.doc_cleanups bs.
+Proof. exact Proofs.CleanupIdem.doc_cleanups_idem. Qed.
+Print Assumptions C02_cleanup_idempotent.
+
+(* non-vacuity: the heading of the repaired defect loses both levels of bold at once *)
+Example C02_cleanup_example :
+  Model.Transforms.doc_cleanups
+    [Model.Ast.BLeaf (Model.Ast.LHeading false 1
+       [Model.Ast.INode Model.Ast.KStrong [Model.Ast.INode Model.Ast.KEmph [Model.Ast.INode Model.Ast.KStrong [Model.Ast.IRaw [97%N]]]]])] =
+    [Model.Ast.BLeaf (Model.Ast.LHeading false 1 [Model.Ast.INode Model.Ast.KEmph [Model.Ast.IRaw [97%N]]])].
+Proof. reflexivity. Qed.
